@@ -125,6 +125,7 @@ func (x *Exec) evalSpecBuiltin(c *evalCtx, fn string, a []Val) (Val, bool, error
 		return strV(app("hmacSum", SStr, s(0), s(1))), true, nil
 	case "wEncS":
 		x.ufun("wEncS", []string{SInt, SStr, SStr, SInt}, SStr)
+		x.Reg.Axiom("wEncNE", "(forall ((w Int) (p String) (a String) (n Int)) (! (> (str.len (wEncS w p a n)) 0) :pattern ((wEncS w p a n))))")
 		return strV(app("wEncS", SStr, a[0].T, s(1), s(2), a[3].T)), true, nil
 	case "wOkS":
 		x.ufun("wOkS", []string{SInt, SStr, SStr}, SBool)
@@ -142,6 +143,7 @@ func (x *Exec) evalSpecBuiltin(c *evalCtx, fn string, a []Val) (Val, bool, error
 		// sealedBy(stored, wrapper, clear, aad): stored is a marshaled BlobInfo whose ciphertext is the
 		// wrapper's encryption of clear under additional data aad
 		x.ufun("wEncS", []string{SInt, SStr, SStr, SInt}, SStr)
+		x.Reg.Axiom("wEncNE", "(forall ((w Int) (p String) (a String) (n Int)) (! (> (str.len (wEncS w p a n)) 0) :pattern ((wEncS w p a n))))")
 		bt := x.blobType()
 		ct := x.decFn(decPrefix(bt)+"!Ciphertext", SStr, s(0))
 		x.Reg.Axiom("decEmpty:"+decPrefix(bt)+"!Ciphertext", "(= ("+sym(decPrefix(bt)+"!Ciphertext")+" \"\") \"\")")
